@@ -4,6 +4,7 @@
 package poolsim
 
 import (
+	"bytes"
 	"errors"
 	"fmt"
 	"os"
@@ -13,6 +14,7 @@ import (
 	"verif/gen/chaingen"
 	"verif/mon"
 	"verif/node"
+	"verif/ref/refacct"
 	"verif/ref/refchain"
 
 	"github.com/btcsuite/btcd/blockchain"
@@ -44,6 +46,9 @@ type PS struct {
 	// NonFinalSubmitted: a non-final transaction was offered (known-defect family bookkeeping).
 	NonFinalSubmitted bool
 	nblk              int
+	// PayScript, when set, makes MineTemplate ask for a template paying to the address of this script (nil: the
+	// generator's anyone-can-spend default). A pay-to-pubkey(-hash) script gives the coinbase a sigop cost of its own.
+	PayScript []byte
 }
 
 // New opens a full node in a fresh directory with the clock following the chain tip.
@@ -306,6 +311,41 @@ func (p *PS) CheckInvariants(what string) *View {
 
 func (p *PS) checkMinable(what string, v *View) {
 	txs := topo(v.Descs)
+	// a pool may hold more than one block can carry: the probe block takes the longest prefix (in dependency order, so
+	// it is closed under dependencies) that fits the consensus capacity limits, computed independently
+	set := p.Tip.Utxo()
+	created := map[wire.OutPoint]*wire.TxOut{}
+	var cost, weight int64 = 0, 4000
+	for i, tx := range txs {
+		var prevScripts [][]byte
+		for _, ti := range tx.TxIn {
+			if c, ok := set[ti.PreviousOutPoint]; ok {
+				prevScripts = append(prevScripts, c.PkScript)
+			} else if o, ok := created[ti.PreviousOutPoint]; ok {
+				prevScripts = append(prevScripts, o.PkScript)
+			} else {
+				prevScripts = append(prevScripts, nil)
+			}
+		}
+		var buf bytes.Buffer
+		tx.Serialize(&buf)
+		if rt, perr := refacct.ParseTx(buf.Bytes()); perr == nil {
+			cost += int64(refacct.TransactionSigOpCost(rt, prevScripts, true, true))
+			weight += rt.Weight()
+		}
+		if cost > 80000 || weight > 4000000 {
+			txs = txs[:i]
+			p.K.Count("check.minable_capacity_prefix", 1)
+			break
+		}
+		h := tx.TxHash()
+		for j, to := range tx.TxOut {
+			created[wire.OutPoint{Hash: h, Index: uint32(j)}] = to
+		}
+	}
+	if len(txs) == 0 {
+		return
+	}
 	now := p.F.Clock.Now()
 	mtp := p.Tip.MTP()
 	ts := now
